@@ -593,6 +593,26 @@ def feed(F, R):
         aw = [bi for bi, t in b.calls() if bi in arm and bi in b.reachable(takes[0][0]) and re.search(r'IntoFuture>::into_future$|Future>::poll$', callee_name(t) or '')]
         R.ob('C10.feed', '%s|no-suspension-between-take-and-feed' % key, not ys and not aw,
              'the chunk handler can be suspended after taking the sender: chunk calls run concurrently, so later pieces (and eof) can overtake this one', b.loc((ys or aw or [takes[0][0]])[0]))
+        # every chunk is looked at: nothing in the arm (closed-connection shortcuts, receiver-dropped shortcuts) lets a chunk
+        # leave the arm without the sender slot having been consulted, and with a sender present the bytes are always fed
+        entries = {x for x in arm if any(p_ not in arm for p_ in b.pred[x])} or {min(arm)}
+        exits = {x for a_ in arm for x in b.succ[a_] if x not in arm}
+        bypass = [x for x in exits for e_ in entries if x in b.reachable(e_, avoid=[takes[0][0]])]
+        R.ob('C10.feed', '%s|every-chunk-consults-the-sender-slot' % key, not bypass,
+             'a payload chunk can leave the PayloadChunk arm without `payload.take()` having been evaluated: its bytes are dropped while the handler of the PUBLISH still waits for them', b.loc(min(arm)))
+        rsw = discr_switch_after_call(b, takes[0][0])
+        if rsw:
+            sb_, tg, oth = rsw
+            some_t = tg.get(1, oth)
+            none_t = tg.get(0, oth)
+            skip = [x for x in exits if x in b.reachable(some_t, avoid=[feeds[0][0], none_t])]
+            R.ob('C10.feed', '%s|sender-present=>bytes-fed' % key, not skip,
+                 'with a payload stream open a chunk can leave the arm without feed_data: the handler sees a truncated payload (and the sender may be lost)', b.loc(feeds[0][0]))
+            lost = [x for x in exits if x in b.reachable(some_t, avoid=[eofs[0][0], sets[0][0], none_t])]
+            R.ob('C10.feed', '%s|sender-present=>eof-or-restored' % key, not lost,
+                 'with a payload stream open a chunk can leave the arm with the sender neither completed (feed_eof) nor put back: the next chunk fails with UnexpectedPayload', b.loc(sets[0][0]))
+        else:
+            R.undecided('C10.feed', '%s|sender-present=>bytes-fed' % key, 'no branch on the result of payload.take() found', b.loc(takes[0][0]))
         # failure branch: no sender -> error
         errs = [bi for bi, j, s in agg_sites(b, r'DecodeError$', 'UnexpectedPayload') if bi in arm]
         R.ob('C10.feed', '%s|chunk-without-stream-is-an-error' % key, bool(errs), 'a chunk that arrives while no payload stream is open is not reported as UnexpectedPayload', b.loc(min(arm)))
